@@ -61,7 +61,7 @@ ASSUMPTIONS = [
     "(size, subset of the vertex set, partition) and through feasibility / optimality of decoded ground states",
     "instances whose to_qubo() lacks a label of range(num_binary_variables) (free variable) skip check (4) in the main "
     "sub-checks (counted); the dedicated sub-checks free_variable_* report them under kind free_variable/solve_bruteforce/<Class>",
-    "floating point: minimum compared with tolerance 1e-9 * (1 + sum|coef|); arg-min set = rows within that tolerance",
+    "floating point: exact comparison when every coefficient of the form is a multiple of 1/8 and the sums stay within 52 bits; otherwise minimum compared with tolerance 1e-9 * (1 + sum|coef|) and arg-min set = rows within that tolerance",
 ]
 
 MAXV = 16
@@ -253,6 +253,10 @@ def numberpartitioning_spec(draw, single=False):
             s = sum(v if draw(st.booleans()) else -v for v in S[:-1])
             if s != 0:
                 S[-1] = abs(s) if draw(st.booleans()) else -abs(s)
+    if not single and draw(st.integers(0, 5)) == 0:
+        # large numbers that differ by little: exact integer arithmetic throughout (products stay below 2^53)
+        base = draw(st.sampled_from([300000, 2 ** 18, 99999]))
+        S = [base + v for v in S[:6]]
     return {"cls": "NumberPartitioning", "S": S, "stype": draw(st.sampled_from(["list", "tuple"])),
             "A": draw(st.sampled_from([0.5, 1, 2, 3])), "anc": 0}
 
@@ -744,6 +748,13 @@ def check_validity_and_decoding(ad, nbv, anc, rec):
     return best
 
 
+def _exact_form(D):
+    try:
+        return all(float(v * 8).is_integer() for v in D.values()) and sum(abs(float(v)) for v in D.values()) * 8 < 2.0 ** 52
+    except (TypeError, OverflowError):
+        return False
+
+
 def analyse(ad, nbv, kw, expect_min, good, strict, tag, rec, exact_argmin=None):
     """(2)/(3)/(5) for one choice of weights.  Returns True when the formulation has a free variable."""
     P, k = ad.P, ad.k
@@ -765,7 +776,9 @@ def analyse(ad, nbv, kw, expect_min, good, strict, tag, rec, exact_argmin=None):
                        (nbv, missing, kw))
             rec.add("free_variable_formulations")
         t = ref.table(D, list(range(nbv)), spin)
-        tol = 1e-9 * _scale(D)
+        # exact when every coefficient is a multiple of 1/8 and the table cannot leave the 53-bit mantissa; a
+        # tolerance relative to the coefficient mass would declare near-optimal rows of large-number instances optimal
+        tol = 0.0 if _exact_form(D) else 1e-9 * _scale(D)
         mn = float(t.min())
         rows = np.nonzero(t <= mn + tol)[0]
         if exact_argmin is not None:
@@ -773,7 +786,7 @@ def analyse(ad, nbv, kw, expect_min, good, strict, tag, rec, exact_argmin=None):
             if got != exact_argmin:
                 ad.bad("ground_states/" + form, "arg-min rows %r, expected exactly %r; kw=%r form=%r" %
                        (got[:10], exact_argmin, kw, D))
-        elif abs(mn - expect_min) > tol + 1e-9 * abs(expect_min):
+        elif abs(mn - expect_min) > (tol + 1e-9 * abs(expect_min) if tol else 0.0):
             ad.bad("min_value/%s/%s" % (form, tag), "minimum of to_%s(%r) is %r, expected %r; form=%r" %
                    (form, kw, mn, expect_min, D))
         # one representative row per distinct solution part (+ the last one, another ancilla pattern)
